@@ -77,6 +77,9 @@ func gz(n int) []byte {
 // gen builds the k-th input for protocol p (deterministic in r).
 func gen(p protos.P, limit uint32, r *core.Rand, routes map[string]string, valid [][]byte) input {
 	f := valid[r.Intn(len(valid))]
+	if !p.Stream {
+		return genWS(limit, r, valid)
+	}
 	sized := p.Name == "raw" || p.Name == "json" || p.Name == "pb" // {4 byte length}{1 byte pipe length}...
 	switch x := r.Intn(20); {
 	case x < 2:
@@ -180,19 +183,147 @@ func gen(p protos.P, limit uint32, r *core.Rand, routes map[string]string, valid
 	}
 }
 
+
+// ---- websocket victim: real handshake over memconn, then raw bytes (hand-built hybi frames) ----
+
+// wsFrame builds one masked client frame (opcode: 1 text, 2 binary, 8 close, 9 ping, 10 pong).
+func wsFrame(opcode byte, payload []byte, announce int64) []byte {
+	n := int64(len(payload))
+	if announce >= 0 {
+		n = announce // the header announces this length, the payload given is what is actually sent
+	}
+	b := []byte{0x80 | opcode}
+	switch {
+	case n < 126:
+		b = append(b, 0x80|byte(n))
+	case n < 1<<16:
+		b = append(b, 0x80|126, byte(n>>8), byte(n))
+	default:
+		b = append(b, 0x80|127, byte(n>>56), byte(n>>48), byte(n>>40), byte(n>>32), byte(n>>24), byte(n>>16), byte(n>>8), byte(n))
+	}
+	mask := []byte{0x11, 0x22, 0x33, 0x44}
+	b = append(b, mask...)
+	for i, c := range payload {
+		b = append(b, c^mask[i%4])
+	}
+	return b
+}
+
+// wsPayloads extracts the payloads of the (unmasked) frames a server wrote.
+func wsPayloads(b []byte) [][]byte {
+	var out [][]byte
+	for len(b) >= 2 {
+		n := int64(b[1] & 0x7f)
+		off := 2
+		switch n {
+		case 126:
+			if len(b) < 4 {
+				return out
+			}
+			n = int64(b[2])<<8 | int64(b[3])
+			off = 4
+		case 127:
+			if len(b) < 10 {
+				return out
+			}
+			n = 0
+			for i := 2; i < 10; i++ {
+				n = n<<8 | int64(b[i])
+			}
+			off = 10
+		}
+		if int64(len(b)) < int64(off)+n {
+			return out
+		}
+		if b[0]&0x0f == 1 || b[0]&0x0f == 2 {
+			out = append(out, b[off:int64(off)+n])
+		}
+		b = b[int64(off)+n:]
+	}
+	return out
+}
+
+type victim struct {
+	sess   erpc.Session
+	write  func([]byte)
+	recv   func() ([]byte, bool)
+	close_ func()
+}
+
+func dialVictim(srv erpc.Peer, p protos.P, ws bool) (*victim, error) {
+	if !ws {
+		c := rawpeer.Dial(srv, p.Func, nil)
+		if c.Sess == nil {
+			return nil, fmt.Errorf("accept failed: %v", c.Stat)
+		}
+		return &victim{sess: c.Sess, write: c.Write, recv: c.Received, close_: c.Close}, nil
+	}
+	c, sess, err := bed.ServeWSRaw(srv, p.Func)
+	if err != nil {
+		return nil, err
+	}
+	return &victim{sess: sess, write: func(b []byte) { c.Write(b) }, recv: c.Received, close_: c.Close}, nil
+}
+
+
+// genWS builds websocket-level inputs: valid holds the sub-protocol payloads of valid messages.
+func genWS(limit uint32, r *core.Rand, valid [][]byte) input {
+	pl := valid[r.Intn(len(valid))]
+	switch x := r.Intn(16); {
+	case x < 1:
+		return input{Class: "ws-random-bytes", Bytes: r.Bytes([]int{1, 2, 6, 14, 64, 300, 5000}[r.Intn(7)])}
+	case x < 4:
+		// a well-formed frame whose sub-protocol payload is damaged
+		b := append([]byte(nil), pl...)
+		for i := 0; i < 1+r.Intn(3); i++ {
+			b[r.Intn(len(b))] ^= 1 << uint(r.Intn(8))
+		}
+		return input{Class: "ws-payload-bitflip", Bytes: wsFrame(2, b, -1), Intact: true}
+	case x < 6:
+		b := wsFrame(2, pl, -1)
+		b[r.Intn(len(b))] ^= 1 << uint(r.Intn(8))
+		return input{Class: "ws-frame-bitflip", Bytes: b}
+	case x < 8:
+		b := wsFrame(2, pl, -1)
+		return input{Class: "ws-truncated", Bytes: b[:r.Intn(len(b))]}
+	case x < 10:
+		// a data frame announcing more than the read limit, payload withheld
+		n := []int64{int64(limit) + 1, int64(limit) + 4096, 1<<31 - 1, 1 << 31, 1<<62 + 5}[r.Intn(5)]
+		return input{Class: "ws-oversize-announced", Bytes: wsFrame(2, pl[:r.Intn(len(pl))], n), Oversz: true}
+	case x < 12:
+		// a control frame (ping / pong / close) announcing a huge payload: control frames carry at most 125 bytes
+		op := []byte{9, 10, 8}[r.Intn(3)]
+		n := []int64{126, 65535, 1 << 20, 1 << 28, 1<<62 + 1}[r.Intn(5)]
+		return input{Class: "ws-control-oversize", Bytes: wsFrame(op, nil, n), Bomb: true}
+	case x < 13:
+		return input{Class: "ws-ping-then-valid", Bytes: append(wsFrame(9, []byte("hi"), -1), wsFrame(2, pl, -1)...), Intact: true}
+	case x < 14:
+		// a fragmented message (FIN clear) and a text frame
+		b := wsFrame(2, pl, -1)
+		b[0] &^= 0x80
+		return input{Class: "ws-unfinished-fragment", Bytes: append(b, wsFrame(1, pl, -1)...)}
+	default:
+		b := wsFrame(2, pl, -1)
+		for i := 0; i < r.Intn(3); i++ {
+			b = append(b, wsFrame(2, valid[r.Intn(len(valid))], -1)...)
+		}
+		return input{Class: "ws-valid-frames", Bytes: b, Intact: true}
+	}
+}
+
 func main() {
 	flag.Parse()
 	core.Prop = *prop
 	wire.RegFilters()
 	bed.Init("OFF")
 
-	protoNames := []string{"raw", "json", "pb", "http"}
+	protoNames := []string{"raw", "json", "pb", "http", "ws-json"}
 	// the default limit (1 GiB) lets a 4-byte prefix make the receiver allocate and clear up to 1 GiB - legitimate,
 	// but slow; the quick tier uses 16 MiB as its largest limit, the thorough tier adds the default
 	limits := []uint32{1 << 10, 64 << 10, 1 << 20, 16 << 20}
 	perBatch := 200
 	if *tier == "thorough" {
-		protoNames = []string{"raw", "json", "pb", "http", "thrift-binary", "thrift-struct"}
+		protoNames = []string{"raw", "json", "pb", "http", "thrift-binary", "thrift-struct", "ws-json", "ws-pb"}
 		perBatch = 1500
 		limits = []uint32{1 << 10, 64 << 10, 1 << 20, 16 << 20, 0}
 	}
@@ -208,7 +339,14 @@ func main() {
 		routes["echo"] = routes["struct"] // the frames to mutate and the control probe carry thrift structs
 	}
 	ctlPeer := erpc.NewPeer(erpc.PeerConfig{})
-	ctl, err := bed.Connect(ctlPeer, srv, p.Func, p.Func, nil)
+	isWS := !p.Stream
+	connectCtl := func() (*bed.Link, error) {
+		if isWS {
+			return bed.ConnectWS(ctlPeer, srv, p.Func, nil)
+		}
+		return bed.Connect(ctlPeer, srv, p.Func, p.Func, nil)
+	}
+	ctl, err := connectCtl()
 	if err != nil {
 		core.Fatalf("control session: %v", err)
 	}
@@ -241,12 +379,16 @@ func main() {
 	// exhaustive part: every byte position of the first valid frame set to each of 5 boundary values,
 	// split over the batches that serve this protocol (one slice per read limit)
 	var exhaustive []input
-	for pos := range valid[0] {
+	first := valid[0]
+	if isWS {
+		first = wsFrame(2, valid[0], -1)
+	}
+	for pos := range first {
 		for _, v := range []byte{0x00, 0x01, 0x7f, 0x80, 0xff} {
-			if valid[0][pos] == v {
+			if first[pos] == v {
 				continue
 			}
-			b := append([]byte(nil), valid[0]...)
+			b := append([]byte(nil), first...)
 			b[pos] = v
 			exhaustive = append(exhaustive, input{Class: "byte-exhaustive", Bytes: b})
 		}
@@ -285,24 +427,24 @@ func main() {
 		utils.VerifMaxAlloc(true)
 		var m0, m1 runtime.MemStats
 		runtime.ReadMemStats(&m0)
-		c := rawpeer.Dial(srv, p.Func, nil)
-		if c.Sess == nil {
-			core.Result(core.R{ID: id, Verdict: core.Inconclusive, What: "accept failed: " + c.Stat.String()})
+		c, derr := dialVictim(srv, p, isWS)
+		if derr != nil {
+			core.Result(core.R{ID: id, Verdict: core.Inconclusive, What: derr.Error()})
 			continue
 		}
-		c.Write(in.Bytes)
+		c.write(in.Bytes)
 		var viols [][2]string
 		q := quiesce.Wait(quiesce.Options{Timeout: 30 * time.Second})
 		if !q.Quiescent {
 			core.Result(core.R{ID: id, Verdict: core.Inconclusive, What: "watchdog: not quiescent after feeding"})
-			c.Close()
+			c.close_()
 			// let the leftover work finish so that it cannot pollute the next measurement
 			quiesce.Wait(quiesce.Options{Timeout: 5 * time.Minute})
 			continue
 		}
 		runtime.ReadMemStats(&m1)
 		maxReq := utils.VerifMaxAlloc(true)
-		_, eof := c.Received()
+		_, eof := c.recv()
 		if uint64(maxReq) > uint64(effLimit) {
 			viols = append(viols, [2]string{"buffer-above-limit", fmt.Sprintf("receive buffer of %d bytes requested with read limit %d", maxReq, effLimit)})
 		}
@@ -321,11 +463,23 @@ func main() {
 		if !eof && in.Intact && !p.Struct {
 			probeSeq++
 			pf, _ := rawpeer.Pack(p, wire.Spec{Seq: probeSeq, Mtype: erpc.TypeCall, Method: routes["echo"], Codec: codec.ID_PLAIN, Body: []byte("probe"), Class: map[string]string{}})
-			before, _ := c.Received()
-			c.Write(pf[0])
+			before, _ := c.recv()
+			if isWS {
+				c.write(wsFrame(2, pf[0], -1))
+			} else {
+				c.write(pf[0])
+			}
 			quiesce.Wait(quiesce.Options{Timeout: 30 * time.Second})
-			after, eof2 := c.Received()
-			fs, _ := rawpeer.Parse(p, after[len(before):])
+			after, eof2 := c.recv()
+			var fs []wire.Spec
+			if isWS {
+				for _, pl := range wsPayloads(after[len(before):]) {
+					one, _ := rawpeer.Parse(p, pl)
+					fs = append(fs, one...)
+				}
+			} else {
+				fs, _ = rawpeer.Parse(p, after[len(before):])
+			}
 			ok := false
 			for _, f := range fs {
 				if f.Seq == probeSeq && f.Mtype == erpc.TypeReply && f.Stat == nil && string(f.Body) == "ok:probe" {
@@ -338,7 +492,7 @@ func main() {
 			}
 		}
 		// input exhausted: the script closes; the victim must end cleanly
-		c.Close()
+		c.close_()
 		q = quiesce.Wait(quiesce.Options{Timeout: 30 * time.Second})
 		if q.Quiescent {
 			readers := quiesce.Blocked(q.Dump, "github.com/henrylee2cn/erpc/v6.(*session).startReadAndHandle")
@@ -346,7 +500,7 @@ func main() {
 				viols = append(viols, [2]string{"reader-wedged", fmt.Sprintf("%d reader goroutines remain after the input was exhausted (expected %d): %v", len(readers), baseReaders, quiesce.Brief(readers))})
 				baseReaders = len(readers) // a wedged reader stays for the rest of the process
 			}
-			if c.Sess.Health() {
+			if c.sess != nil && c.sess.Health() {
 				viols = append(viols, [2]string{"still-healthy-after-eof", "session reports healthy after its connection ended"})
 			}
 		}
@@ -366,7 +520,7 @@ func main() {
 			if !st.OK() || string(res) != "ok:ctl" {
 				viols = append(viols, [2]string{"control-session-broken", fmt.Sprintf("control session call failed after the input: %v %q", st, res)})
 				if !ctl.A.Health() {
-					ctl, err = bed.Connect(ctlPeer, srv, p.Func, p.Func, nil)
+					ctl, err = connectCtl()
 					if err != nil {
 						core.Fatalf("control session lost: %v", err)
 					}
